@@ -21,13 +21,15 @@ func init() {
 		Decided: "R1 in the Dispatcher implementation ValidatePacket is called exactly once on every path, everything that forwards (AddMaybe, Route.Dispatch, sends) happens only after its no-error edge, and the error edge reports to the bad-metrics tracker once, increments the invalid counter once, the inbound counter once, and returns; " +
 			"R2 the two level arguments of ValidatePacket are the loaded snapshot's Validation_level_legacy.Level / Validation_level_m20.Level, and those snapshot fields are filled from the equally named configuration fields; " +
 			"R3 the level-name tables map each documented name to the constant of the same name, are written through a pointer receiver into the Level field, agree with the tables in docs/validation.md, and the defaults of NewConfig are the rows marked (default); " +
-			"R4 IncNumInvalid increments inbound and invalid once each.",
+			"R4 IncNumInvalid increments inbound and invalid once each; " +
+			"R5 the bad-metrics tracker records every reported line under its name with the rejected text and the reason, and expires records only after maxAge.",
 		NotDecided: "the validation grammar itself (third-party carbon20 package, pinned by go.sum); retention timing of the bad-metrics report; TOML decoding.",
 		Rules: []RuleDef{
 			{ID: "C02.R1", Min: 1, Doc: "gate: path enumeration of every input.Dispatcher.Dispatch implementation; forwarding events only after the `valid` edge; the `invalid` edge is followed by exactly bad.Add×1, numInvalid.Inc×1 and return", Run: c02r1},
 			{ID: "C02.R2", Min: 4, Doc: "level plumbing: value flow from cfg.Config.Validation_level_* through TableConfig() → NewTableConfig → TableConfig fields → ValidatePacket arguments", Run: c02r2},
 			{ID: "C02.R3", Min: 8, Doc: "level-name tables: map literal entries key ↔ constant name, pointer receiver and store into l.Level, agreement with docs/validation.md, defaults", Run: c02r3},
 			{ID: "C02.R4", Min: 1, Doc: "IncNumInvalid: numIn.Inc and numInvalid.Inc exactly once on every path", Run: c02r4},
+			{ID: "C02.R5", Min: 3, Doc: "bad-metrics report: Add builds Record{name, rejected text, reason, now} from its parameters; manage stores each received record under its own name; records are only expired when older than maxAge", Run: c02r5},
 		},
 	})
 }
@@ -351,3 +353,78 @@ func c02r4(c *Check) {
 
 var _ = regexp.MustCompile
 var _ = token.ADD
+
+func c02r5(c *Check) {
+	add := c.P.Func("badmetrics", "*BadMetrics", "Add")
+	lit := literalFields(add, "badmetrics.Record")
+	okLit := false
+	if len(lit) == 4 {
+		m, isM := lit["Metric"].(*ssa.Convert)
+		l, isL := lit["LastMsg"].(*ssa.Convert)
+		okLit = isM && isL && m.X == ssa.Value(add.Params[1]) && l.X == ssa.Value(add.Params[2])
+		if e, ok := lit["LastErr"].(*ssa.Call); !ok || !e.Call.IsInvoke() || e.Call.Method.Name() != "Error" || e.Call.Value != ssa.Value(add.Params[3]) {
+			okLit = false
+		}
+		if n, ok := lit["LastSeen"].(*ssa.Call); !ok || calleeName(n.Common()) != "time.Now" {
+			okLit = false
+		}
+	}
+	inF := c.P.Field("badmetrics", "BadMetrics", "In")
+	sent := false
+	allInstrs(add, func(in ssa.Instruction) {
+		if s, ok := in.(*ssa.Send); ok && isFieldLoad(s.Chan, inF) {
+			sent = true
+		}
+	})
+	c.Judge(okLit && sent, "badmetrics.Add records (name, rejected text, reason, now)", c.AtFn(add), "Record{string(metric), string(msg), err.Error(), time.Now()} sent to the tracker", "the bad-metrics record is not built from the name, the rejected line and the reason (fields swapped or dropped)")
+	mg := c.P.Func("badmetrics", "*BadMetrics", "manage")
+	seenF := c.P.Field("badmetrics", "BadMetrics", "seen")
+	okStore := false
+	allInstrs(mg, func(in ssa.Instruction) {
+		mu, ok := in.(*ssa.MapUpdate)
+		if !ok || !isFieldLoad(mu.Map, seenF) {
+			return
+		}
+		root, names := fieldPath(mu.Key)
+		if len(names) == 1 && names[0] == "Metric" {
+			// value is the same received record
+			vr, vn := fieldPath(mu.Value)
+			if len(vn) == 0 && (vr == root || strip(vr) == strip(root)) {
+				okStore = true
+			}
+		}
+	})
+	c.Judge(okStore, "badmetrics.manage keeps the last record per name", c.AtFn(mg), "seen[record.Metric] = record", "a reported record is not stored under its own metric name")
+	// expiry: delete only under LastSeen.Before(now - maxAge)
+	okExp := false
+	maxAgeF := c.P.Field("badmetrics", "BadMetrics", "maxAge")
+	allInstrs(mg, func(in ssa.Instruction) {
+		cc, ok := isBuiltinCall(in, "delete")
+		if !ok || !isFieldLoad(cc.Args[0], seenF) {
+			return
+		}
+		for _, b := range mg.Blocks {
+			ifi, ok := b.Instrs[len(b.Instrs)-1].(*ssa.If)
+			if !ok {
+				continue
+			}
+			call, ok := ifi.Cond.(*ssa.Call)
+			if !ok || calleeName(call.Common()) != "(time.Time).Before" {
+				continue
+			}
+			// cutoff = time.Now().Add(-maxAge)
+			cut, ok := call.Call.Args[1].(*ssa.Call)
+			if !ok || calleeName(cut.Common()) != "(time.Time).Add" {
+				continue
+			}
+			neg, ok := cut.Call.Args[1].(*ssa.UnOp)
+			if !ok || neg.Op != token.SUB || !isFieldLoad(neg.X, maxAgeF) {
+				continue
+			}
+			if _, names := fieldPath(call.Call.Args[0]); len(names) > 0 && names[len(names)-1] == "LastSeen" && edgeDominates(b, b.Succs[0], in.Block()) {
+				okExp = true
+			}
+		}
+	})
+	c.Judge(okExp, "badmetrics.manage expires a record only when it is older than maxAge", c.AtFn(mg), "delete under record.LastSeen.Before(now − maxAge)", "bad-metrics records are expired by a different rule than `older than maxAge`")
+}
